@@ -184,3 +184,8 @@ pub mod queue {
 pub mod task {
     pub use crate::executor::verif_task::*;
 }
+
+/// Façade over the raw executors (V1).
+pub mod pool {
+    pub use crate::executor::verif_pool::*;
+}
